@@ -185,7 +185,7 @@ def raterunOp (_args impl : List String) : Option (String × String) :=
     t = "stopEarly=1" ∨ (t.startsWith "callsAfterStop=" ∧ t ≠ "callsAfterStop=0") ∨ t = "inFnAtStopReturn=1" ∨
     (t.startsWith "callsWithHourlyFrequency=" ∧ t ≠ "callsWithHourlyFrequency=0") ∨ t = "withinOnePerTick=0" ∨
     t = "callsBeforeStart=1" ∨ t = "firstCallBeforeOneTick=1" ∨ t = "switchedBeforeStartDelay=1" ∨
-    t = "calls=0" ∨ t = "someCalls=0" ∨ t = "stop-never-returned" ∨ t = "err"
+    t = "calls=0" ∨ t = "someCalls=0" ∨ t = "stop-never-returned" ∨ t = "err" ∨ t = "outOfOrder=1"
   some ("-", if impl.isEmpty then "FAIL no-impl-output"
     else match bad with
       | [] => "ok"
@@ -194,6 +194,7 @@ def raterunOp (_args impl : List String) : Option (String × String) :=
         else if b.startsWith "callsAfterStop" then "FAIL function-invoked-after-Stop-returned"
         else if b.startsWith "callsWithHourly" then "FAIL invoked-under-a-schedule-none-of-whose-ticks-was-due"
         else if b = "callsBeforeStart=1" ∨ b = "firstCallBeforeOneTick=1" then "FAIL invoked-before-Start-or-for-a-tick-that-elapsed-before-Start"
+        else if b = "outOfOrder=1" then "FAIL schedules-not-walked-in-the-order-the-list-gives-them"
         else if b = "switchedBeforeStartDelay=1" then "FAIL moved-to-the-next-schedule-before-its-start-delay-had-run-from-Start"
         else s!"FAIL {b}")
 
